@@ -936,6 +936,9 @@ class Ctx:
             return a.z == b.z
         if is_num(a) and is_num(b):
             return num_cmp("==", a, b)
+        r = self.contract.call(self, "__eq__", [a, b], {}, None)
+        if r is not NotImplemented:
+            return r
         raise Unsupported(f"equality on {a!r}, {b!r}")
 
     def contains(self, container, x, n):
@@ -1859,6 +1862,7 @@ class Ctx:
         self.env[f"_it{k}"] = t
         self.assume(t >= 0)
         if seq_mode:
+            self.assume(And(num_cmp("<=", t, length), num_cmp(">=", length, 0)))  # at most len(seq) iterations
             self.assume_inv(spec, k, _it=t)
             enter = num_cmp("<", t, length)
         else:
